@@ -31,6 +31,7 @@ import (
 
 var out = bufio.NewWriter(os.Stdout)
 var netErr = errors.New("connection dropped")
+var seenBody = map[string]bool{}
 
 func msgsStr(ms []kafka.Message) string {
 	if len(ms) == 0 {
@@ -508,6 +509,12 @@ func (s *scen) emit() {
 		mode = "sync"
 	}
 	fmt.Fprintf(out, "ctrace %s %s\t%s\n", mode, strings.Join(toks, ";"), st)
+	for _, l := range s.mock.TakeBodies() {
+		if !seenBody[l] {
+			seenBody[l] = true
+			fmt.Fprintln(out, l)
+		}
+	}
 }
 
 // lastCommitOffsets finds the offsets of the OffsetCommit call that the M.Ret at seq answers.
